@@ -132,3 +132,57 @@ MUTANTS += [
     dict(prop="C04", name="join-fields-newline-column", file="bionumpy/io/dump_csv.py",
          old='    lines[(n_columns - 1)::n_columns, -1] = "\\n"', new='    lines[(n_columns - 1)::n_columns, -1] = "\\n"\n    if n_columns > 9:\n        lines[(n_columns - 2)::n_columns, -1] = " "'),
 ]
+
+MUTANTS += [
+    # ---- C05 ----------------------------------------------------------------------------
+    dict(prop="C05", name="cached-fields-not-indexed", file=LZ,
+         old="            new_computed = {key: value[idx] for key, value in self._computed_values.items()}",
+         new="            new_computed = {key: value for key, value in self._computed_values.items()}"),
+    dict(prop="C05", name="replace-keeps-stale-cache", file=LZ,
+         old="            return self.__class__(self._itemgetter, new_dict)\n", new="            return self.__class__(self._itemgetter, new_dict, dict(self._computed_values))\n"),
+    dict(prop="C05", name="setattr-keeps-assembled-table", file=LZ,
+         old="            self._computed = False\n            self._data = None\n", new=""),
+    dict(prop="C05", name="lazy-modified-write-pos-not-shifted", file=VB,
+         old="        if field_name == 'position':\n            return value+1", new="        if field_name == 'position':\n            return value"),
+    dict(prop="C05", name="info-offsets-assume-file-order", file=NTB,
+         old="        starts = np.where(present_mask, starts, starts[last_present])", new="        starts = np.maximum.accumulate(starts)"),
+    dict(prop="C05", name="eager-getitem-drops-header", file="bionumpy/bnpdataclass/bnpdataclass.py",
+         old="        result = super().__getitem__(idx)\n        if isinstance(result, BNPDataClass):\n            result._with_context_of(self)",
+         new="        result = super().__getitem__(idx)\n        if isinstance(result, BNPDataClass) and not isinstance(idx, slice):\n            result._with_context_of(self)"),
+    dict(prop="C05", name="lazy-concat-cached-from-first", file=LZ,
+         old="                                       if name not in set_values and all(name in a._computed_values for a in values)}",
+         new="                                       if name not in set_values and all(name in a._computed_values for a in values[:1])}"),
+]
+
+FILES = "bionumpy/io/files.py"
+DC = "bionumpy/io/dump_csv.py"
+
+MUTANTS += [
+    # ---- C03 ----------------------------------------------------------------------------
+    dict(prop="C03", name="vcf-from-data-pos-not-shifted", file=VB,
+         old="        data = dataclasses.replace(data, position=data.position + 1)\n        return super().from_data(data)",
+         new="        return super().from_data(data)"),
+    dict(prop="C03", name="fasta-n-lines-floor", file=MLB,
+         old="        n_lines = (sequence_lengths-1) // (cls.n_characters_per_line) + 1", new="        n_lines = sequence_lengths // (cls.n_characters_per_line) + 1"),
+    dict(prop="C03", name="fasta-last-line-length", file=MLB,
+         old="        last_length = (sequence_lengths-1) % cls.n_characters_per_line + 1", new="        last_length = sequence_lengths % cls.n_characters_per_line"),
+    dict(prop="C03", name="header-flag-set-after-data (seeded C03-a)", edits=[
+        (P, "                self._file_obj.write(header_array)\n                self._header_written = True\n", "                self._file_obj.write(header_array)\n"),
+        (P, "        self._file_obj.write(bytes(bytes_array))\n", "        self._file_obj.write(bytes(bytes_array))\n        self._header_written = True\n")]),
+    dict(prop="C03", name="append-gzip-header-again", file=FILES,
+         old="        writer._header_written = True\n", new=""),
+    dict(prop="C03", name="int-width-from-float-log", file=SO,
+         old="    lengths = np.searchsorted(powers_of_ten, magnitude, side='right')+1", new="    lengths = np.log10(np.maximum(magnitude, 1)).astype(int)+1"),
+    dict(prop="C03", name="negative-sign-position", file=SO,
+         old='    digits[is_negative, 0] = "-"\n    return digits', new='    digits[is_negative & (lengths < 18), 0] = "-"\n    return digits'),
+    dict(prop="C03", name="int-list-separator-count", file=SO,
+         old="    row_lens = lengths.sum(axis=-1)+int_lists.lengths", new="    row_lens = lengths.sum(axis=-1)+np.maximum(int_lists.lengths, 2)"),
+    dict(prop="C03", name="fastq-quality-offset-on-write", file=FQ,
+         old="        quality_field = EncodedRaggedArray(EncodedArray(QualityEncoding.decode(entries.quality.ravel()), BaseEncoding),",
+         new="        quality_field = EncodedRaggedArray(EncodedArray(QualityEncoding.decode(np.minimum(entries.quality.ravel().raw(), 92)), BaseEncoding),"),
+    dict(prop="C03", name="sam-trailing-tab", file=SAM,
+         old="        return cls._drop_empty_tag_column(super().from_data(data))", new="        return super().from_data(data)"),
+    dict(prop="C03", name="stream-skips-first-empty-chunk", file=P,
+         old="                if len(buf) > 0 or not self._header_written:\n                    self.write(buf)\n            return\n        if isinstance(data, grouped_stream):",
+         new="                if len(buf) > 0:\n                    self.write(buf)\n            return\n        if isinstance(data, grouped_stream):"),
+]
